@@ -62,12 +62,13 @@ def build_harness(kind):
 # ---------------------------------------------------------------------------
 # TLC: model runs (cached by content hash of the spec directory + cfg)
 # ---------------------------------------------------------------------------
-def spec_hash(extra=""):
+def spec_hash(module, cfg):
+    """Content hash of every module of the specification and of the one configuration used."""
     h = hashlib.sha256()
-    for p in sorted(glob.glob(os.path.join(SPEC, "*.tla")) + glob.glob(os.path.join(SPEC, "*.cfg"))):
-        h.update(p.encode())
+    for p in sorted(glob.glob(os.path.join(SPEC, "*.tla"))) + [os.path.join(SPEC, cfg)]:
+        h.update(os.path.basename(p).encode())
         h.update(open(p, "rb").read())
-    h.update(extra.encode())
+    h.update(module.encode())
     return h.hexdigest()[:20]
 
 def tlc_cmd(module, cfg, metadir, workers, extra=(), xmx="12g", deque=False):
@@ -109,7 +110,7 @@ def run_model(name, module, cfg, timeout_s, workers=None, need=()):
     """Runs one exhaustive TLC configuration (cached by spec hash).  Returns the parsed result."""
     os.makedirs(CACHE, exist_ok=True)
     os.makedirs(os.path.join(WORK, "tmp"), exist_ok=True)
-    key = spec_hash(module + cfg)
+    key = spec_hash(module, cfg)
     cpath = os.path.join(CACHE, "%s-%s.json" % (name, key))
     if os.path.exists(cpath) and not os.environ.get("VERIF_NOCACHE"):
         r = json.load(open(cpath))
